@@ -20,12 +20,13 @@ from ..astutil import local_assignments, walk_no_nested
 from ..core import AnalysisError, ConstEnv, norm
 from ..pkgenv import Package
 from ..refmodel import RefBlackBox, RefCircuit, build, free_nodes, simulate
-from ..semantic import assignments, deep_circuits, one_gate_circuits, two_level_circuits, values_table
+from ..semantic import guarded, assignments, deep_circuits, one_gate_circuits, two_level_circuits, values_table
 from ..typetables import BASE_OF, MULTI_FANIN, reference_partition
 
 FILE = "tx.py"
 
 
+@guarded
 def same_function(c_old, c_new, nodes, extra_free=None):
     """Every node of `nodes` has the same value in both circuits for every assignment of c_old's free nodes."""
     fr = free_nodes(c_old)
